@@ -2,9 +2,9 @@
 from __future__ import annotations
 
 import ast
-from typing import Dict, List, Optional, Tuple
+from typing import Dict, List, Optional, Set, Tuple
 
-from ..cfg import CFG
+from ..cfg import CFG, symbolic_paths
 from ..exprnorm import normalize
 from ..report import Run
 from ..src import AnalysisError, FuncInfo, Program, call_name, stmt_key, walk_no_nested
@@ -286,25 +286,44 @@ def _defaults(prog: Program, run: Run) -> None:
     simple_marker = ""
     gv = prog.func("ComparamInstance.get_value")
     C = "ComparamInstance.get_value"
-    ifs = [x for x in walk_no_nested(gv.node) if isinstance(x, ast.If) and "self.value" in
-           ast.unparse(x.test)]
-    if len(ifs) != 1:
-        raise AnalysisError("get_value: fall-back test not found")
-    t = ifs[0]
-    own = any("self.value" in ast.unparse(s) for s in t.body)
-    dfl = any("physical_default_value" in ast.unparse(s) for s in (t.orelse if own else t.body))
-    v_marker = _eval_missing(t.test, "self.value", simple_marker)
-    v_real = _eval_missing(t.test, "self.value", "500000")
-    takes_default_for_marker = (v_marker is False) if own else (v_marker is True)
-    takes_own_for_real = (v_real is True) if own else (v_real is False)
-    if dfl and takes_default_for_marker and takes_own_for_real:
+    # what get_value returns for the parser's marker of an omitted value and for a real value,
+    # read off the symbolic paths (if/else, `a or b`, conditional expression alike)
+    paths = symbolic_paths(gv.node)
+
+    def pick(e: ast.AST, val: object) -> str:
+        if isinstance(e, ast.BoolOp) and isinstance(e.op, ast.Or):
+            for o in e.values[:-1]:
+                if ast.unparse(o) == "self.value":
+                    if val:
+                        return "self.value"
+                    continue
+                return "?" + ast.unparse(e)
+            return pick(e.values[-1], val)
+        if isinstance(e, ast.IfExp):
+            v = _eval_missing(e.test, "self.value", val)
+            if v is None:
+                return "?" + ast.unparse(e)
+            return pick(e.body if v else e.orelse, val)
+        return ast.unparse(e)
+
+    def returned(val: object) -> Set[str]:
+        got = set()
+        for p_ in paths:
+            if p_.retval is None:
+                continue
+            if all(_eval_missing(t_, "self.value", val) in (None, pol) for t_, pol in p_.conds):
+                got.add(pick(p_.retval, val))
+        return got
+    r_marker, r_real = returned(simple_marker), returned("500000")
+    if r_marker == {"self.spec.physical_default_value"} and r_real == {"self.value"}:
         run.ok(R, C, "falls back to spec.physical_default_value exactly when the value is the "
-               "parser's marker for an omitted value ('')", f"{gv.module.rel}:{t.lineno}")
+               "parser's marker for an omitted value ('')", gv.loc)
     else:
         run.violation(R, C, "default-fallback",
-                      f"`if {ast.unparse(t.test)}` does not select the specification's default "
-                      "for an omitted value: the parser stores '' for an empty <SIMPLE-VALUE/> "
-                      "(never None)", f"{gv.module.rel}:{t.lineno}", stmt_key(t))
+                      f"get_value returns {sorted(r_marker)} for an omitted value and "
+                      f"{sorted(r_real)} for a specified one; it must select the specification's "
+                      "default exactly for the omitted value: the parser stores '' for an empty "
+                      "<SIMPLE-VALUE/> (never None)", gv.loc)
     gs = prog.func("ComparamInstance.get_subvalue")
     C = "ComparamInstance.get_subvalue"
     fn = gs.node
